@@ -96,10 +96,20 @@ fn mutate(rng: &mut Rng, s: &str) -> String {
     c.into_iter().collect()
 }
 
+/// Install a TRACE-level subscriber that really formats every event (into a sink), so that the
+/// `Display`/`Debug` impls reached from the parsers' log statements are executed under `catch_unwind`.
+fn install_formatting_subscriber() {
+    let _ = tracing_subscriber::fmt()
+        .with_max_level(tracing::Level::TRACE)
+        .with_writer(std::io::sink)
+        .try_init();
+}
+
 fn main() {
     let args = &common::parse_args();
     let mut out = Out::new(&args.out);
     std::panic::set_hook(Box::new(|_| {}));
+    install_formatting_subscriber();
     let lines: Vec<String> = if let Some(p) = &args.replay {
         common::read_lines(p)
     } else {
